@@ -367,10 +367,9 @@ def s6_local(ctx, rep):
             f"retrieve is given `{U(a0)[:60] if a0 is not None else '?'}`, not the complete self.stdout(trial_id): a report written onto a line that was already "
             "seen while it was still open is never parsed")
     # its result is what add_results gets
-    st = [x for x in walk_shallow(f.node) if isinstance(x, ast.Assign) and any(y is calls[0] for y in ast.walk(x.value))]
-    mv = U(st[0].targets[0]) if st and len(st[0].targets) == 1 and U(st[0].value) == U(calls[0]) else None
     ar = [x for x in walk_shallow(f.node) if isinstance(x, ast.Call) and fn_name(x) == "add_results"]
-    okm = mv is not None and len(ar) == 1 and kwarg(ar[0], "metrics", 0) is not None and U(kwarg(ar[0], "metrics", 0)) == mv
+    mval = deref(f, kwarg(ar[0], "metrics", 0)) if len(ar) == 1 and kwarg(ar[0], "metrics", 0) is not None else None
+    okm = mval is not None and isinstance(mval, ast.Call) and fn_name(mval) == "retrieve" and U(mval) == U(calls[0])
     rep.put(okm, "S1", "agreement", "LocalBackend._all_trial_results: the metrics recorded for the trial are exactly what retrieve returned", f, ar[0] if ar else None, "",
             "the recorded metric list is assembled from something else than this poll's retrieve(...) result (merged with a cache, filtered)")
 
